@@ -423,9 +423,8 @@ class HttpParser:
 
         body_part, rest = rest[:size], rest[size:]
         if len(rest) < 2:
-            self.errno = INVALID_CHUNK
-            self.errstr = 'chunk missing terminator [%s]' % data
-            return -1
+            # the CRLF that ends the chunk has not arrived yet: wait for it
+            return None
 
         # maybe decompress
         if self.__decompress_obj is not None:
@@ -449,12 +448,15 @@ class HttpParser:
             raise InvalidChunkSize(chunk_size)
 
         if chunk_size == 0:
-            self._parse_trailers(rest_chunk)
+            if not self._parse_trailers(rest_chunk):
+                # the end of the trailer section has not arrived yet: wait for it
+                return None, None
             return 0, None
         return chunk_size, rest_chunk
 
     def _parse_trailers(self, data):
-        idx = data.find(b'\r\n\r\n')
-
-        if data[:2] == b'\r\n':
-            self._trailers = self._parse_headers(data[:idx])
+        """
+        True once the trailer section after the last chunk is complete: an empty
+        line directly after it, or trailer fields (ignored) ended by an empty line
+        """
+        return data[:2] == b'\r\n' or data.find(b'\r\n\r\n') >= 0
